@@ -94,9 +94,24 @@ PROPS = {
              "known enterprises). Every evaluation is non-trivial (>= 1 unknown and >= 1 known field); distinct by (mode, fields, values).",
              COMMON_ASSUME + ["zero-length unknown elements belong to C03's degenerate templates"],
              "runtime monitor: differential decoding (with vs without unknown fields) x 3 modes against refipfix-encoded wire bytes"),
+    "C10": P(True, (16, 16), 16, (1200, 7200), 10000, 2000, "exploration",
+             "one evaluation = one schedule over {T template/refresh/replacement, B bad template, D data, Adv(TTL/2|TTL|...), P1(j) start "
+             "fired timer callback j up to its clock read, P2(j) finish it, C(j,op) finish it CONCURRENTLY with op} on a udp collecting process "
+             "running on an injected virtual clock with time.AfterFunc semantics (fired-but-pending callbacks included). After every "
+             "operation: table == deterministic lifetime model (no early drop: a callback deletes only if expiry <= the time it read; no "
+             "template outlives a completed callback that read a time >= its expiry), stored expiry == last refresh + TTL, every stored "
+             "template has exactly one timer that is armed at its expiry or has a callback in flight, no armed timer without a template; "
+             "every schedule ends with a drain after which the table and the timer registry must be empty. Exhaustive: all words to the "
+             "stated depth (no-op symbols pruned); random: length <= 40 over 3 keys. Non-trivial = a refresh/replacement/invalidation ran "
+             "while a callback for that key was fired-but-unfinished; distinct by the schedule.",
+             COMMON_ASSUME + ["time.AfterFunc's documented Stop/Reset semantics are modelled by vclock, not observed on the real runtime timer"],
+             "runtime monitor: injected virtual clock with controllable callback placement + lifetime model + timer-registry invariants; race detector"),
 }
 
 LEVEL_TEXT = {
+    "C10": "Held on every schedule explored, with the placement of timer firing, the callback's clock read and its completion relative "
+           "to refreshes/replacements/invalidations enumerated exhaustively to a bounded depth (the clock is under the harness's control, "
+           "so schedules are inputs here, not luck), and real concurrency between a callback and an operation under the race detector.",
     "C17": "Held on every template shape and value vector explored, including every placement of up to 3 unknown fields among up to 4 "
            "known ones. The property is input/configuration-quantified and deterministic, so differential exploration is the right level.",
     "C04": "Held on every history explored, exhaustively up to the stated length over 3 keys and randomly beyond. The state that matters "
